@@ -702,6 +702,18 @@ class Verifier(QuantMixin, LoopMixin, ExprMixin, CallMixin, StmtMixin, BuiltinsM
         self.mark_external(res)
         return res
 
+    def prim_ufvt(self, e, fr):
+        """ufvt('name', '<type spec>', a, ...): uninterpreted spec function whose values have the given type (a
+        definitional typing of the spec function, hence an axiom)"""
+        name = ast.literal_eval(e.args[0])
+        spec = ast.literal_eval(e.args[1])
+        args = [self.ev(a, fr) for a in e.args[2:]]
+        f = z3.Function(f'ufv_{name}', *([Val] * len(args)), Val)
+        res = f(*args)
+        self.mark_external(res)
+        self._add_axiom(self.type_formula(res, spec))
+        return res
+
     def mark_external(self, res) -> None:
         """a value produced outside the analysed code (spec function, user callable): never one of the
         objects the analysed call allocates itself"""
@@ -847,6 +859,13 @@ class Verifier(QuantMixin, LoopMixin, ExprMixin, CallMixin, StmtMixin, BuiltinsM
             return self.oracle_outcome(spec, f'call:{mname}', recv, at, kd)
         return NotImplemented
 
+    def gen_next_hook(self, it, so, rest):
+        c = self.class_of(it)
+        if c is not None and c.name in self.oracle_methods and '__next__' in self.oracle_methods[c.name]:
+            spec = self.oracle_methods[c.name]['__next__']
+            return self.oracle_outcome(spec, 'call:__next__', it, self.mk_tuple([]), self.mk_dict([]))
+        self.unsupported(f'next() on {c.name if c else "?"}')
+
     def record_event(self, kind: str, fv, at, kd, outcome: str, value) -> None:
         n = self.st.ghost['tr_len']
         vals = dict(kind=smt.mk_str(kind), callee=fv, args=at, kwargs=kd, outcome=smt.mk_str(outcome), value=value)
@@ -916,8 +935,14 @@ class Verifier(QuantMixin, LoopMixin, ExprMixin, CallMixin, StmtMixin, BuiltinsM
         """the clause as ONE formula (all its sub-paths merged), so contracts do not fork the caller"""
         return self.merged_truth(lambda: self.truthy(self.call_clause(clause, env)), clause.qualname)
 
-    def apply_contract(self, ct: Contract, fi: FuncInfo, args, kwargs, star, dstar, node=None):
+    def apply_contract(self, ct: Contract, fi: FuncInfo, args, kwargs, star, dstar, node=None, extra_env=None):
         env = self.bind_for_contract(fi, args, kwargs, star, dstar, node)
+        for cn, cv in (extra_env or {}).items():
+            env[cn] = cv
+            spec = (ct.extra.get('closure') or {}).get(cn)
+            if spec:
+                self.oblige('requires@callee', f'{fi.qualname}: closure {cn} : {spec}', self.type_formula(cv, spec),
+                            ct.props)
         where = f'{fi.qualname}@{getattr(node, "lineno", "?")}'
         cur = getattr(self, 'current_contract', None)
         site_props = tuple(dict.fromkeys((cur.props if cur is not None else ()) + ct.props))
@@ -1219,17 +1244,6 @@ class Verifier(QuantMixin, LoopMixin, ExprMixin, CallMixin, StmtMixin, BuiltinsM
     def run_path(self, fi: FuncInfo, ct: Contract, res: FuncResult) -> PathRecord:
         try:
             args, kwargs, star, dstar, vals = self.symbolic_params(fi, ct)
-            self.param_vals = vals
-            for p, spec in ct.types.items():
-                if p not in vals:
-                    raise Unsupported(f'contract {ct.name} types unknown parameter {p}')
-                self.assume_type(vals[p], spec)
-            for rq in ct.requires:
-                self.assume(self.clause_holds(rq, vals))
-            if not self.feasible():
-                raise Infeasible()
-            self.old = self.st.snapshot()
-            self.writes = []
             target = fi
             clo = ct.extra.get('closure')
             if clo:
@@ -1242,6 +1256,17 @@ class Verifier(QuantMixin, LoopMixin, ExprMixin, CallMixin, StmtMixin, BuiltinsM
                     pfr.locals[cn] = cv
                     vals[cn] = cv
                 target = Closure(fi, pfr, self.eval_defaults(fi.node.args, pfr))
+            self.param_vals = vals
+            for p, spec in ct.types.items():
+                if p not in vals:
+                    raise Unsupported(f'contract {ct.name} types unknown parameter {p}')
+                self.assume_type(vals[p], spec)
+            for rq in ct.requires:
+                self.assume(self.clause_holds(rq, vals))
+            if not self.feasible():
+                raise Infeasible()
+            self.old = self.st.snapshot()
+            self.writes = []
             try:
                 result = self.call_function(target, args, kwargs, star, dstar)
                 outcome = 'return'
